@@ -424,7 +424,8 @@ def run(ctx):
 
     def mark(name):
         marks.append((name, time.time()))
-        ctx.notes.append("phase %s: %.1fs" % (name, marks[-1][1] - marks[-2][1]))
+        ctx.notes.append("phase %s: %.1fs" %
+                         (name, marks[-1][1] - marks[-2][1]))
 
     ctx.check_obligations()
     mark("obligations")
@@ -463,7 +464,7 @@ def run(ctx):
         lmax = 6 if quick else 8
         lconfigs = [(b, n, k) for b in bodies(lmax) for n in declared(b)
                     for k in blocks]
-        keep = (3000.0 if quick else 100000.0) / (2 * len(lconfigs))
+        keep = (3000.0 if quick else 60000.0) / (2 * len(lconfigs))
         ljobs = [(c, rng.getrandbits(32), keep)
                  for c in chunks(lconfigs, 2000)]
         line_cases = []
@@ -473,7 +474,7 @@ def run(ctx):
             note_hits(out["hits"])
             line_cases.extend(out["cases"])
     mark("exploration (monitor)")
-    budget = 5000 if quick else 250000
+    budget = 5000 if quick else 135000
     if len(grid_cases) > budget:
         grid_cases = rng.sample(grid_cases, budget)
     for payload in grid_cases + line_cases:
@@ -486,7 +487,7 @@ def run(ctx):
 
     # ---------------- random long bodies, short-reading streams
     long_cases = []
-    for i in range(240 if quick else 6000):
+    for i in range(240 if quick else 4000):
         body, n, block, shorts, calls = random_long(rng, quick)
         long_cases.append((body, n, block, shorts, calls, SPIN_LIMIT_LONG))
     for i in range(3 if quick else 40):
